@@ -132,6 +132,18 @@ func probeCapacity(e *pagedrv.Env, _ json.RawMessage, info map[string]interface{
 	if s.Stats.MetaArea != s.MetaTotal {
 		e.Viol = append(e.Viol, pagedrv.Violation{Class: "stats/meta-area", Msg: fmt.Sprintf("FileStats.MetaArea=%d, allocator meta total=%d", s.Stats.MetaArea, s.MetaTotal)})
 	}
+	// no leaked meta pages: what is not on the meta free list holds the free list, the overwrite mapping or an overwrite copy
+	metaUsed := 0
+	for _, r := range s.FreelistPages {
+		metaUsed += int(r.Count)
+	}
+	for _, r := range s.WALMetaPages {
+		metaUsed += int(r.Count)
+	}
+	metaUsed += len(s.WALMapping)
+	if int(s.MetaTotal)-int(s.MetaAvail) != metaUsed {
+		e.Viol = append(e.Viol, pagedrv.Violation{Class: "space/meta-leak", Msg: fmt.Sprintf("meta area of %d pages, %d free, but only %d pages hold free list, mapping or overwrite copies", s.MetaTotal, s.MetaAvail, metaUsed)})
+	}
 	if s.Stats.MetaAllocated != s.MetaTotal-s.MetaAvail {
 		e.Viol = append(e.Viol, pagedrv.Violation{Class: "stats/meta-allocated", Msg: fmt.Sprintf("FileStats.MetaAllocated=%d, meta total-free=%d", s.Stats.MetaAllocated, s.MetaTotal-s.MetaAvail)})
 	}
@@ -391,9 +403,10 @@ func runC11(ctx *core.Ctx, pool *par.Pool) {
 	outcomes := map[string]int{}
 	runs := plan(cfgs, []seed{seedTail, seedFrag, seedWAL, seedFull}, depth, seedDepth)
 	if ctx.Quick() {
-		runs = append(quickPlan(depth, seedDepth, false, false), bfsRun{pagedrv.CfgU, seedEmpty, depth - 1})
+		runs = append(quickPlan(depth, seedDepth, false, false), bfsRun{pagedrv.CfgU, seedEmpty, depth - 1}, bfsRun{pagedrv.CfgI255, seedEmpty, 3})
 	} else {
-		runs = append(runs, bfsRun{pagedrv.CfgU, seedEmpty, depth - 1}, bfsRun{pagedrv.CfgU, seedTail, seedDepth - 1})
+		runs = append(runs, bfsRun{pagedrv.CfgU, seedEmpty, depth - 1}, bfsRun{pagedrv.CfgU, seedTail, seedDepth - 1},
+			bfsRun{pagedrv.CfgI254, seedEmpty, 4}, bfsRun{pagedrv.CfgI255, seedEmpty, 4}, bfsRun{pagedrv.CfgI256, seedEmpty, 4})
 	}
 	for _, run := range runs {
 		ctx.Share(ctx.FairShare(len(runs), 1))
@@ -608,7 +621,20 @@ func runC10(ctx *core.Ctx, pool *par.Pool) {
 	addWide(pagedrv.CfgC, []O{B, {K: pagedrv.OAlloc, A: 150}, {K: pagedrv.OWriteAll}, C, B, {K: pagedrv.OWriteAll, B: pagedrv.WPartial}, C, B, {K: pagedrv.OFreeEveryOther, A: 0}, C})
 	// unbounded file grown past the mapped size several times
 	addWide(pagedrv.CfgC, []O{B, {K: pagedrv.OAlloc, A: 70}, {K: pagedrv.OWriteAll}, C, B, {K: pagedrv.OAlloc, A: 70}, C, B, {K: pagedrv.OAlloc, A: 200}, {K: pagedrv.OWrite, A: -1}, C})
-	// pre-sized meta area of exactly 256 pages (a free meta region of 255 pages from the start)
+	// pre-sized meta area of exactly 256 pages (a free meta region of 255 pages from the start), and its neighbours
+	for _, c := range []pagedrv.Cfg{pagedrv.CfgI254, pagedrv.CfgI255, pagedrv.CfgI256} {
+		addWide(c, nil)
+		addWide(c, []O{B, {K: pagedrv.OAlloc, A: 5}, {K: pagedrv.OWriteAll}, C})
+	}
+	// alignment sweep: k one-page free regions followed by one region of 300 pages, so that for some k the 12-byte
+	// entry of the large region ends exactly at the end of a free-list page (and for others straddles it)
+	klo, khi := 118, 132
+	if !ctx.Quick() {
+		klo, khi = 1, 360
+	}
+	for k := klo; k <= khi; k++ {
+		addWide(pagedrv.CfgE, []O{B, {K: pagedrv.OAlloc, A: 2*k + 300}, C, B, {K: pagedrv.OFreeRun, A: 2 * k, B: 300}, {K: pagedrv.OFreeEveryOther, A: 0}, C})
+	}
 	twinsRun += xstate.RunTwins(ctx, pool, wide)
 	ctx.Set("wide_histories", len(wide))
 	ctx.Set("reopen_points_compared", reopens)
